@@ -20,7 +20,7 @@ LEVEL = "exploration"
 DECIDING = ["C11.assignment"]
 RULE = ("set-ups = (full grid with n_b in {1,4,8,17}, n_o in {4,12,25}, n_t in {2,3,4} incl. non-equidistant radii; second molecule with three "
         "distinct principal moments: non-planar 4-8 atoms / planar (water in both atom orders, random planar) / input/H2O.gro; metric "
-        "cartesian_grid True/False; outliers included or not; trajectory = continuous random placements (not grid points, some beyond the "
+        "cartesian_grid True/False; outliers included or not (flag as bool / numpy bool / 0,1); whole system shifted by up to 8 A per axis in half of the set-ups; trajectory = continuous random placements (not grid points, some beyond the "
         "outer boundary, equal-sized grids with coinciding end points but different interior radii used in one process, one long trajectory of 2200 frames per run and more in thorough) or the grid's own pseudotrajectory, some assigned twice from the same array). "
         "Every frame is judged. Non-trivial = set-up with n_b>=4 and >=20 unambiguous frames; distinct by set-up digest")
 ASSUMPTIONS = ["placements whose best and second-best candidate differ by < 1e-3 (A for radii, cosine for directions, |q.q_b| for rotations) or that lie "
@@ -261,7 +261,10 @@ def drive(tr, pts, io, d, rng, nprng, tier, idx, cache, force=None):
         X2, el2 = make_second_molecule(rng, nprng, kind)
         c10.write_molecule(p2, X2 + np.round(nprng.uniform(-3, 3, size=3), 3), el2)
     planar = kind in ("water", "planar", "h2o_file")
-    include_outliers = rng.random() < 0.4
+    # the flag in the spellings a caller may hand over (read from an array, a config integer, ...)
+    include_outliers = rng.choice([True, True, np.True_, 1] if rng.random() < 0.4 else [False, False, np.False_, 0])
+    # the whole system may sit anywhere in the box: in half of the set-ups every atom of every frame is shifted by one offset
+    offset = np.round(nprng.uniform(-8, 8, size=3), 3) if rng.random() < 0.5 else None
     cartesian = rng.random() < 0.5
     outer = r[-1] + 0.5 * (r[-1] - r[-2])
     mode = rng.choice(["continuous", "continuous", "own_pt", "continuous_twice"]) if not force_far else "continuous"
@@ -282,9 +285,11 @@ def drive(tr, pts, io, d, rng, nprng, tier, idx, cache, force=None):
         q /= np.linalg.norm(q, axis=1, keepdims=True)
         placements = np.hstack([dirs * dist[:, None], q])
     far_planar = planar and float(np.linalg.norm(placements[:, :3], axis=1).max()) > 4.0
-    desc = {"grid": [f"{balg}_{n_b}", f"{oalg}_{n_o}", t], "second_molecule": kind, "include_outliers": include_outliers,
+    desc = {"grid": [f"{balg}_{n_b}", f"{oalg}_{n_o}", t], "second_molecule": kind, "include_outliers": repr(include_outliers),
+            "system_offset": None if offset is None else offset.tolist(),
             "cartesian_grid": cartesian, "mode": mode, "frames": len(placements), "far_planar": far_planar}
-    REC.begin_case(desc, cls=[f"mol2={kind}", f"mode={mode}", f"n_b={n_b}", f"far_planar={far_planar}"], sample=(idx % 5 == 0))
+    REC.begin_case(desc, cls=[f"mol2={kind}", f"mode={mode}", f"n_b={n_b}", f"far_planar={far_planar}", f"shifted_system={offset is not None}",
+                              f"outliers_flag={type(include_outliers).__name__}"], sample=(idx % 5 == 0))
     try:
         m1 = io.OneMoleculeReader(p1).get_molecule()
         m2 = io.OneMoleculeReader(p2).get_molecule()
@@ -292,8 +297,14 @@ def drive(tr, pts, io, d, rng, nprng, tier, idx, cache, force=None):
         for rep in range(reps):
             # the same grid array object is handed to every tool of this set-up (a tool must not depend on, or alter, earlier uses of it)
             u = pts.Pseudotrajectory(m1, m2, placements).get_pt_as_universe()
+            if offset is not None:
+                import MDAnalysis as mda
+                from MDAnalysis.coordinates.memory import MemoryReader
+                coords = np.array([ts.positions.copy() for ts in u.trajectory], dtype=np.float64) + offset
+                u = mda.Merge(u.atoms)
+                u.load_new(coords.astype(np.float32), format=MemoryReader)
             m2ref = io.OneMoleculeReader(p2).get_molecule()
-            info = {"placements": placements, "d": dgrid, "q": qgrid, "r": r, "include_outliers": include_outliers, "planar": planar,
+            info = {"placements": placements, "d": dgrid, "q": qgrid, "r": r, "include_outliers": bool(include_outliers), "planar": planar,
                     "x2_ref": np.array(m2ref.atoms.positions, dtype=float), "m2": np.array(m2ref.atoms.masses, dtype=float), "desc": desc}
             REG[id(u)] = info
             tool = tr.AssignmentTool(grid, u, m2ref, include_outliers=include_outliers, cartesian_grid=cartesian)
